@@ -58,6 +58,12 @@ CHECKS["C17"] = {
     "text": U + " of RedialPacketConn with 1-3 scripted carriers x failure scripts {none, read, write, both, late write} x dial end {error, block} x close instants (no error before Close/dial failure, at most one carrier active, every carrier closed, no goroutine of the package alive after Close, packets unmodified and in order despite buffer scribbling); QueuePacketConn: all operation sequences <=5(6) against a FIFO reference, overflow run, concurrent feeders/reader/writer/closer; ClientMap with its real sweeper on virtual time (retention until T-1ns, discarded and closed by 1.5T); clientMapInner with explicit clock: breadth-first to a fixpoint with heap/index invariants.",
     "design_ref": "§3 C17", "note": SCHED_NOTE,
 }
+CHECKS["C05"] = {
+    "script": "c05.py", "category": "model_checking",
+    "technique": "stateless model checking of the real turbotunnelMode + QueuePacketConn + ClientMap + clientIDAddrMap under a controlled scheduler (DPOR + sleep sets, virtual time) with in-memory carriers and a KCP stand-in",
+    "text": U + " for 1 session x 10 carrier schedules (cut at every byte class + reconnect, overlapping carriers, idle gaps 30/59/61/95 s with a packet written during the gap) and for 2-3 concurrent sessions; oracle: every packet from ReadFrom was framed on a carrier that presented that ClientID (byte-identical, exactly once, none lost), downstream packets leave only through carriers of their session in FIFO order and survive gaps below the retention time, carrier handlers and their goroutines end, the address looked up at accept time is that of the most recent carrier of that ClientID and never another session's.",
+    "design_ref": "§3 C05", "note": SCHED_NOTE + " Tier 1 only: the token check and one-Accept-per-session live in ServeHTTP / KCP+smux (third-party stacks) and are not covered; KCP is replaced by a stand-in.",
+}
 CHECKS["C07"] = {
     "script": "c07.py", "category": "exploration", "engine": "enum",
     "technique": "bounded-exhaustive enumeration of address spellings (filtered by Go's own parsers) x delimiter contexts x joiners x write splits on the real scrubber, with a parse-based oracle",
